@@ -112,6 +112,10 @@ def source_of(infos):
     lines.append("class %s(%s):" % (i["name"], ", ".join(i["bases"]))
                  if i["bases"] else "class %s:" % i["name"])
     body = ["  %s = K%s_%s()" % (a, i["name"][1:], a) for a in i["attrs"]]
+    if i["ok"] and i["bases"]:
+      for a in ATTRS:
+        body.append("  def sup_%s_%s(self): return super().%s" % (
+            i["name"], a, a))
     lines += body or ["  pass"]
   reads = []
   for i in infos:
@@ -124,6 +128,22 @@ def source_of(infos):
                       want))
         reads.append(("i_%s_%s" % (i["name"], a), "%s().%s" % (i["name"], a),
                       want))
+  # super() inside a method of Ci, evaluated on an instance of Ck: the lookup
+  # continues after Ci in Ck's linearisation
+  for k in infos:
+    if not k["ok"]:
+      continue
+    for i in infos:
+      if not (i["ok"] and i["bases"] and i["cls"] in k["cls"].__mro__):
+        continue
+      for a in ATTRS:
+        try:
+          val = getattr(super(i["cls"], k["cls"]()), a)
+        except AttributeError:
+          continue
+        reads.append(("s_%s_%s_%s" % (k["name"], i["name"], a),
+                      "%s().sup_%s_%s()" % (k["name"], i["name"], a),
+                      type(val).__name__))
   for var, expr, _ in reads:
     lines.append("%s = %s" % (var, expr))
   return "\n".join(lines) + "\n", class_line, reads
@@ -282,8 +302,40 @@ def spec_strategy():
   return specs()
 
 
+def layered_strategy():
+  """Hierarchies in layers (roots, classes over two roots, classes over two
+  or three of those): the shapes in which C3 differs from simpler orders."""
+  from hypothesis import strategies as st
+
+  @st.composite
+  def specs(draw):
+    nroots = draw(st.integers(2, 4))
+    spec = [([], sorted(draw(st.lists(st.sampled_from(ATTRS), max_size=2,
+                                      unique=True)))) for _ in range(nroots)]
+    n1 = draw(st.integers(2, 3))
+    for _ in range(n1):
+      bases = draw(st.lists(st.integers(0, nroots - 1), min_size=1,
+                            max_size=3, unique=True))
+      spec.append((bases, sorted(draw(st.lists(st.sampled_from(ATTRS),
+                                               max_size=2, unique=True)))))
+    n2 = draw(st.integers(1, 3))
+    for _ in range(n2):
+      pool = list(range(nroots, nroots + n1)) + list(range(nroots))
+      bases = draw(st.lists(st.sampled_from(pool), min_size=2, max_size=3,
+                            unique=True))
+      spec.append((bases, sorted(draw(st.lists(st.sampled_from(ATTRS),
+                                               max_size=1, unique=True)))))
+    return spec
+
+  return specs()
+
+
 def run_shard(ctx):
   boot.ensure()
+  hyp_run(ctx, layered_strategy(), lambda s: check_spec(ctx, s, "P", "L"),
+          300 if ctx.quick() else 6000, label="L-P")
+  hyp_run(ctx, layered_strategy(), lambda s: check_spec(ctx, s, "S", "L"),
+          6 if ctx.quick() else 300, label="L-S")
   if ctx.quick():
     exhaustive(ctx, 3, 2, "P", "E3")        # 4*... stub route, ms each
     exhaustive(ctx, 2, 3, "SP", "E2")
